@@ -5,8 +5,12 @@ History monitor (vector vs. a model list after every operation) + invariant at a
 invariant on the live _items/_items_size state of ArrayBase, recording mode) + observable consequence
 (compose prefix == body length, fits the prefix width, parse(compose) round trip).
 """
+import copy
 import enum
 import random
+import weakref
+
+import attr
 
 from vmon import bank, core, inventory, structural
 
@@ -37,11 +41,50 @@ def item_sizes(param, items):
             total += param.get_item_size(item)
             continue
         size = _SIZE_MEMO.get(key)
-        if size is None or size[1] is not item:
-            size = (param.get_item_size(item), item)
+        if size is None or size[1]() is not item:
+            # weak references: the memo must not keep dropped items alive (object identities are meant to be reused)
+            try:
+                size = (param.get_item_size(item), weakref.ref(item))
+            except TypeError:
+                total += param.get_item_size(item)
+                continue
+            if len(_SIZE_MEMO) > 200000:
+                _SIZE_MEMO.clear()
             _SIZE_MEMO[key] = size
         total += size[0]
     return total
+
+
+def forget(item):
+    """The harness changed `item` in place: its remembered size is void."""
+    for key in [key for key in _SIZE_MEMO if key[1] == id(item)]:
+        del _SIZE_MEMO[key]
+
+
+def grow(item):
+    """Make a (private copy of a) parsable item a little larger in place; True when its encoded size changed and it still
+    round-trips on its own."""
+    if not attr.has(type(item)) or not hasattr(item, 'compose'):
+        return False
+    try:
+        before = len(bytes(item.compose()))
+    except Exception:  # pylint: disable=broad-except
+        return False
+    for field in attr.fields(type(item)):
+        value = getattr(item, field.name, None)
+        try:
+            if isinstance(value, bytearray):
+                value += b'\x00'
+            elif hasattr(value, '_items_size') and hasattr(value, 'append') and len(value):
+                value.append(value[0])
+            else:
+                continue
+            composed = bytes(item.compose())
+            if len(composed) != before and structural.equal(type(item).parse_exact_size(composed), item):
+                return True
+        except Exception:  # pylint: disable=broad-except
+            return False
+    return False
 
 
 def size_matches_items(self):
@@ -270,6 +313,7 @@ class Check(core.CheckBase):  # pylint: disable=too-many-instance-attributes
             return found
         model = list(start)
         changed = refused = 0
+        script = []
         limit = case.get('stop_after', case['length'])
         for step in range(min(case['length'], limit + 1)):
             size = item_sizes(param, model)
@@ -279,6 +323,26 @@ class Check(core.CheckBase):  # pylint: disable=too-many-instance-attributes
             position = rng.randrange(-len(model) - 1, len(model) + 2)
             item = rng.choice(items) if items else None
             many = [rng.choice(items) for _ in range(rng.choice((0, 1, 2, 5, 40)))] if items else []
+            # short-lived items: fresh copies that die once they are removed again, so that later items reuse their identity
+            if item is not None and hasattr(item, '__dict__') and not isinstance(item, enum.Enum) and rng.random() < 0.4:
+                item = copy.copy(item)
+                many = [copy.copy(entry) for entry in many[:5]]
+                self.stats['short_lived_items'] += 1 + len(many)
+            # scripted: the same item leaves the vector, is changed by its owner and comes back (through ordinary edits)
+            if script:
+                op, position, item = script.pop(0)
+                if op == 'grow-item':
+                    if not grow(item):
+                        script = []
+                    forget(item)
+                    self.stats['items_changed_outside'] += 1
+                    continue
+            elif model and room > 64 and hasattr(model[0], '__dict__') and rng.random() < 0.06:
+                spot = rng.randrange(len(model))
+                clone = copy.deepcopy(model[spot])
+                if grow(copy.deepcopy(clone)):
+                    script = [('pop-index', spot, None), ('grow-item', None, clone), ('insert', spot, clone)]
+                    op, position, item = 'set-index', spot, clone
             if op == 'grow':
                 if item is None:
                     continue
@@ -426,6 +490,21 @@ class Check(core.CheckBase):  # pylint: disable=too-many-instance-attributes
                 self.consequence(cls, param, vector, violation)
                 if found:
                     break
+        # last: the owner of an item changes it while it sits in the vector. The size bookkeeping cannot know (not an edit
+        # through the sequence interface), but what compose() writes must still be consistent: prefix == body, round trip
+        if not found and model and hasattr(model[0], '__dict__') and \
+                param.max_byte_num - item_sizes(param, model) > 64 and rng.random() < 0.5:
+            spot = rng.randrange(len(model))
+            clone = copy.deepcopy(model[spot])
+            try:
+                vector[spot] = clone
+            except Exception:  # pylint: disable=broad-except
+                clone = None
+            if clone is not None and grow(clone):
+                forget(clone)
+                step = case['length']
+                self.stats['items_changed_in_place'] += 1
+                self.consequence(cls, param, vector, violation)
         self.observe((name, case['rng']), changed > 0 and refused > 0, {'cls': name, 'rng': case['rng'],
                                                                          'changed': changed, 'refused': refused,
                                                                          'final_items': len(vector)})
